@@ -761,7 +761,10 @@ def lemma_c02_inv():
 
 
 def units():
-    return [FunctionUnit(AddStatement()), FunctionUnit(FreshVarName()), FunctionUnit(NextStatementId()),
+    # theorem T orders statements that conflict on their DECLARED sets; that the declared sets cover what a
+    # statement touches is C08: its functions under contract are functions this property depends on
+    from . import c08
+    return c08.units() + [FunctionUnit(AddStatement()), FunctionUnit(FreshVarName()), FunctionUnit(NextStatementId()),
             FunctionUnit(IfContract(1)), FunctionUnit(IfContract(3)), FunctionUnit(ElseContract()),
             LemmaUnit("lemma:C02-inv", lemma_c02_inv),
             LeanUnit("lemma:L-PERM", "lemmas/LPerm.lean", ["run_eq_of_linear_extensions"]),
